@@ -20,13 +20,14 @@ theorem codes_valid (cfg : Cfg) (ts v : Nat) (hbd : cfg.bd ≤ 16) :
 re-wrapped) with every visible sample a valid code -/
 theorem rgbToYuv_total (B : Build) (rgb : Rgb) (cfg : Cfg) (ts : Nat) (hw : 0 < rgb.w) (hh : 0 < rgb.h) (hsz : rgb.data.size = rgb.w * rgb.h)
     (wdiv : rgb.w % 2 ^ cfg.ssx = 0) (hdiv : rgb.h % 2 ^ cfg.ssy = 0) (hss : cfg.ssx < 256 ∧ cfg.ssy < 256)
-    (fits : (Plane.new (rgb.w >>> cfg.ssx) (rgb.h >>> cfg.ssy) cfg.ssx cfg.ssy 0 0 ts).data.size < USIZE_MAX) :
+    (fits : (Plane.new (rgb.w >>> cfg.ssx) (rgb.h >>> cfg.ssy) cfg.ssx cfg.ssy 0 0 ts).data.size < USIZE_MAX)
+    (fitsY : (Plane.new rgb.w rgb.h 0 0 0 0 ts).data.size ≤ USIZE_MAX) :
     (∃ e, rgbToYuv B rgb cfg ts = .ok (.error e)) ∨ (∃ g, rgbToYuv B rgb cfg ts = .ok (.ok g) ∧ InvYuv g) := by
   unfold rgbToYuv
   split
   · exact Or.inl ⟨_, rfl⟩
   · rename_i t _
-    obtain ⟨g, e, i, _⟩ := C11.encode_spec (Array.map (M3.mulArr B.fma t) rgb.data) rgb.w rgb.h cfg ts hw hh (by simp [hsz]) wdiv hdiv hss fits
+    obtain ⟨g, e, i, _⟩ := C11.encode_spec (Array.map (M3.mulArr B.fma t) rgb.data) rgb.w rgb.h cfg ts hw hh (by simp [hsz]) wdiv hdiv hss fits fitsY
     exact Or.inr ⟨g, by rw [e]; rfl, i⟩
 
 /-- YUV->RGB on any constructed image: a value or a `ConversionError`, never a panic or UB -/
